@@ -7,14 +7,15 @@ class C03(LBCheck):
   FOCUS = ('dispatch:',)
   RULE = ('case = one history (30-2000 ops: dispatch, complete in any order by reply/error/timeout/'
           'connection fault, member down/up, leave, join incl. duplicates/unknown/re-joins, time '
-          'advances) against a real Heap or Aperture balancer under the real timeout sink with '
+          'advances, follow-up dispatches issued from the response handler of a completing request) against a real Heap or Aperture balancer under the real timeout sink with '
           'harness-owned member channels (sync/delayed/failing opens). Per dispatch the chosen '
           'channel is compared with a reference model of outstanding requests per member incarnation: '
           'candidate set P0 = members in use just before the dispatch (+ members added during it). '
           'non-trivial = at least one dispatch judged; distinct by (balancer, #members, open mode, '
           'classes of events mixed in, length)')
   REQUIRED_CLASSES = ('heap', 'aperture', 'no-members', 'all-down-dispatch', 'member-down', 'member-up',
-                      'removal-at-depth', 'rejoin', 'complete:reply', 'complete:error', 'complete:timeout')
+                      'removal-at-depth', 'rejoin', 'complete:reply', 'complete:error', 'complete:timeout',
+                      'dispatch-from-response-handler')
   ASSUMPTIONS = ('member = channel incarnation; a re-joined endpoint is a new member',
                  'candidate set for the aperture balancer is read from its heap array at a quiescent '
                  'point just before each dispatch (the property is about "the members currently in its aperture")')
